@@ -289,3 +289,6 @@ def run(cx):
         ob.count(sum(x.evals for x in w))
         bad = [v for x in w for v in x.violations]
         ob.require(len(w) == 1 and not bad, "unwatched-connection/handler-failure-propagates", "the manager loop swallows the failure of a connection handler (its peer stays listed although nothing serves or watches the connection): " + "; ".join(str(v.msg) for v in bad)[:300], "anemo::network::connection_manager::ConnectionManager::start")
+
+    with cx.ob("C09.7", "R-SHAPE", "one layer out: closed world of destructors - only the stream wrapper (reset) and the connection manager (closes the endpoint) run code on drop; dropping a Network / Peer / Connection handle or a guard closes nothing by itself") as ob:
+        check_drop_impls_closed(ob, prog, ["anemo::connection::SendStream", "anemo::network::connection_manager::ConnectionManager"])
